@@ -318,7 +318,12 @@ func c12Doc(t *rapid.T) map[string]any {
 	if len(rows)%2 == 1 {
 		grid = append(grid, []any{rows[len(rows)-1]})
 	}
-	return map[string]any{"t": rows, "u": us, "meta": map[string]any{"ip": "10.0.0.1"}, "grid": grid}
+	// one: rows with exactly one key
+	one := []any{}
+	for i := 0; i < len(rows)+1; i++ {
+		one = append(one, map[string]any{"k": float64(i + 1)})
+	}
+	return map[string]any{"t": rows, "u": us, "meta": map[string]any{"ip": "10.0.0.1"}, "grid": grid, "one": one}
 }
 
 func genC12(t *rapid.T) *Bundle {
@@ -330,7 +335,7 @@ func genC12(t *rapid.T) *Bundle {
 	}
 	g := &c12Gen{t: t, root: root}
 	T, U := root+"t", root+"u"
-	shape := g.pick("shape", "plain", "plain", "where", "order_total", "order_ties", "limit", "distinct", "group", "whole_agg", "join", "pjoin", "derived", "cte", "cte_direct", "dual", "union", "slice", "alias", "star", "nested_from", "group_star", "in_subquery", "having", "cte_col", "cte_twice", "offset_window", "join_into", "join_into", "join_unaliased", "distinct_async", "grid", "grid_cte", "grid_distinct", "join_derived_side", "cte_dual_star", "join_limit", "nonfinite", "async_arg")
+	shape := g.pick("shape", "plain", "plain", "where", "order_total", "order_ties", "limit", "distinct", "group", "whole_agg", "join", "pjoin", "derived", "cte", "cte_direct", "dual", "union", "slice", "alias", "star", "nested_from", "group_star", "in_subquery", "having", "cte_col", "cte_twice", "offset_window", "join_into", "join_into", "join_unaliased", "distinct_async", "grid", "grid_cte", "grid_distinct", "join_derived_side", "cte_dual_star", "join_limit", "nonfinite", "async_arg", "defaultkey")
 	seq := true
 	var q string
 	switch shape {
@@ -406,6 +411,9 @@ func genC12(t *rapid.T) *Bundle {
 			q = fmt.Sprintf("SELECT * FROM %s y %s (SELECT id, %s FROM %s) x ON x.id = y.id", U, g.pick("jds_jt2", "JOIN", "RIGHT JOIN"), g.items("", true), T)
 		}
 		seq = false
+	case "defaultkey":
+		// DEFAULTKEY over rows with a single key, reached through a star subquery (which carries the marker on the way)
+		q = fmt.Sprintf("SELECT %s AS d FROM %sone", g.pick("defaultkey_form", "DEFAULTKEY((SELECT * FROM dual))", "DEFAULTKEY((SELECT k FROM dual))", "DEFAULTKEY((SELECT * FROM dual)) IS NULL", "(SELECT DEFAULTKEY((SELECT * FROM dual)) AS dd FROM dual)"), root)
 	case "join_limit":
 		// LIMIT over a join without ORDER BY: which rows make the window depends on the order the join emits them in
 		q = fmt.Sprintf("SELECT * FROM %s x %s %s y ON x.id %s y.id LIMIT %d", T, g.pick("jl_jt", "JOIN", "LEFT JOIN", "PARALLEL JOIN", "STRAIGHT_JOIN"), U, g.pick("jl_op", "<=", "=", "!="), rapid.IntRange(1, 2).Draw(t, "jl_lim"))
